@@ -13,4 +13,8 @@ CHECKS = {
    technique='explicit-state BFS over evaluate(access path) histories + exhaustive permutations of first-evaluation order, on the real compiler',
    text='Every history (depth 2 quick / 3 thorough) of evaluate over all access paths of 18 curated workbooks (every cell, every rectangle of the used area, A:A / 1:1 / A:B forms, list/tuple/generator, sheet-less address), on in-memory and xlsx-backed models, with each returned element compared with a fixed-order reference and each call repeated; plus all permutations of first-evaluation order (<= 6 cells). Order/path dependence needs a specific first-evaluation order, which exhaustive enumeration supplies.',
    note='Trusts the fixed-order from-scratch evaluation as the reference; quick tier evaluates an evenly spread subset of rectangles (all in thorough).'),
+ 'C08': dict(engine='E1-history-bfs', design_ref='5/C08',
+   technique='exhaustive enumeration of (input set, output set, trim timing, persistence) configurations x all input-assignment histories, differential against the untrimmed real model',
+   text='For 18 workbooks every input set (cells, constant ranges, buried formula cells; size <= 2) x output set (size <= 2) x {cold, warm} trim x {direct, yml, json, pkl}, all histories of input assignments up to depth 2 (3 thorough) over 4 values are replayed on the trimmed model and on an untrimmed model, every output compared after every write. Trim defects need a particular (input, output) topology plus a re-assignment or a round trip, which the enumeration supplies.',
+   note='Trusts the untrimmed model as oracle and the specification-derived dependency relation (mc/wb.py) for judging legitimate refusals. None is never written to a formula cell.'),
 }
